@@ -29,7 +29,7 @@ CHECKS = {
  "C08": ("exploration", "complete election/NI decision table of Flush executed on generated RIBs + contents workload; reference model, hooked refcount invariant and model-judged aftermath (ops + delete sweep)",
          "All 300 cells of {learnt id} x {election field incl. 128-bit neighbours} x {network-instance field} are executed against servers with generated contents: status code, exact emptying / no change, election state untouched, consistent aftermath. Authorised flushes of every target selection run over generated RIBs with shared, missing and cyclic backup groups and cross-NI references.",
          "trusted: model; expected status codes taken from gRIBI spec 4.3 (detail reasons not asserted)", "4 C08"),
- "C09": ("exploration", "bounded-exhaustive message sequences (length <= 3 over an 18-symbol alphabet, 4 start states, 6 bystander configurations) plus random longer ones against the session model: termination status (code + reason), full hooked-state comparison, bystander silence, footprint probe",
+ "C09": ("exploration", "bounded-exhaustive message sequences (length <= 3 over a 20-symbol alphabet, 4 start states, 6 bystander configurations) plus random longer ones against the session model: termination status (code + reason), full hooked-state comparison, bystander silence, footprint probe",
          "Every sequence of up to three messages from {8 parameter combinations, election zero/low/equal/high, operation with/without id, 4 multi-field messages} is sent on a session started fresh / negotiated / primary / superseded, with other sessions present in six configurations; the status the RPC ends with must be in the set the gRIBI specification allows, the complete server state must equal the model after every message, other streams must stay silent, and afterwards a fresh session must be able to negotiate.",
          "trusted: session model; acceptance sets where the specification leaves room are listed in the evidence assumptions", "4 C09"),
  "C10": ("fault_enumeration", "systematic enumeration of client cut points (every send/read step of a Modify script x half-close/cancel/transport kill, Get cut after k responses) with a prefix-closed state oracle and a bounded-progress liveness probe under watchdog + quiescent goroutine-dump classifier, in child processes",
